@@ -15,6 +15,16 @@ def jobs(tier):
             J.append(j)
     J.append(Job('set_code', 'harness/c17_code.c', 'h_set_code', defines={'NDEBUG': None}, anns=['annot/code.ann'],
                  unwind=20, object_bits=10, solver='cadical', timeout=600, no_standard_checks=True))
+    model = [('rename_def', '_MIR_set_code', '_MIR_set_code__real', 'vp_model_set_code')]
+    for f in ('update_code_arr', 'change_code', 'add_code'):
+        j = Job('window.' + f, 'harness/c17_code.c', 'h_' + f, defines={'NDEBUG': None, 'VP_SET_CODE_MODEL': None},
+                ops=model, unwind=6, object_bits=10, solver='cadical', timeout=600, no_standard_checks=True,
+                scope=['_MIR_set_code', 'vp_ctx_setup'])
+        j.count_funcs = {'_MIR_update_code_arr', '_MIR_change_code', 'add_code'}
+        if f == 'update_code_arr':
+            j.kind = 'bounded'
+            j.bound = 'at most 3 relocations (the max-offset loop is unwound), offsets <= 2^40'
+        J.append(j)
     return J
 
 
